@@ -61,6 +61,10 @@ func ExecOp(s *Stores, ctx boltz.MutateContext, op Op) (res execResult) {
 			res.err = s.Notes.Create(ctx, &Note{Id: op.Id, About: cloneStrP(op.Ref)})
 		case StTickets:
 			res.err = s.Tickets.Create(ctx, &Ticket{Id: op.Id, Assignee: cloneStrP(op.Ref)})
+		case StReviews:
+			res.err = s.Reviews.Create(ctx, &Review{Id: op.Id, Reviewer: cloneStrP(op.Ref)})
+		case StFolders:
+			res.err = s.Folders.Create(ctx, &Folder{Id: op.Id, Parent: cloneStrP(op.Ref)})
 		case StMemos:
 			res.err = s.Memos.Create(ctx, &Memo{Id: op.Id, Topic: cloneStrP(op.Ref)})
 		case StGroups:
@@ -86,6 +90,10 @@ func ExecOp(s *Stores, ctx boltz.MutateContext, op Op) (res execResult) {
 			res.err = s.Notes.Update(ctx, &Note{Id: op.Id, About: cloneStrP(op.Ref)}, chk)
 		case StTickets:
 			res.err = s.Tickets.Update(ctx, &Ticket{Id: op.Id, Assignee: cloneStrP(op.Ref)}, chk)
+		case StReviews:
+			res.err = s.Reviews.Update(ctx, &Review{Id: op.Id, Reviewer: cloneStrP(op.Ref)}, chk)
+		case StFolders:
+			res.err = s.Folders.Update(ctx, &Folder{Id: op.Id, Parent: cloneStrP(op.Ref)}, chk)
 		case StMemos:
 			res.err = s.Memos.Update(ctx, &Memo{Id: op.Id, Topic: cloneStrP(op.Ref)}, chk)
 		case StGroups:
@@ -96,7 +104,7 @@ func ExecOp(s *Stores, ctx boltz.MutateContext, op Op) (res execResult) {
 	case "delete":
 		res.err = s.ByName(op.S).DeleteById(ctx, op.Id)
 	case "deleteWhere":
-		field := map[string]string{StNotes: "about", StTickets: "assignee", StBadges: "owner", StPeople: "name", StStaff: "name", StPX: "name", StMemos: "topic"}[op.S]
+		field := map[string]string{StNotes: "about", StTickets: "assignee", StBadges: "owner", StPeople: "name", StStaff: "name", StPX: "name", StMemos: "topic", StReviews: "reviewer", StFolders: "parent"}[op.S]
 		res.err = s.ByName(op.S).DeleteWhere(ctx, fmt.Sprintf(`%s = "%s"`, field, op.Q))
 	case "addLinks", "removeLinks", "setLinks", "addLink", "removeLink":
 		var lc boltz.LinkCollection = s.People.lcGroups
@@ -229,6 +237,16 @@ func snapEntity(store string, e boltz.Entity) string {
 			return "<nil>"
 		}
 		return simpleSnap(StTickets, v.Id, "", v.Assignee)
+	case *Review:
+		if v == nil {
+			return "<nil>"
+		}
+		return simpleSnap(StReviews, v.Id, "", v.Reviewer)
+	case *Folder:
+		if v == nil {
+			return "<nil>"
+		}
+		return simpleSnap(StFolders, v.Id, "", v.Parent)
 	case *Memo:
 		if v == nil {
 			return "<nil>"
@@ -290,6 +308,18 @@ func findSnap(s *Stores, tx *bbolt.Tx, store, id string) (string, error) {
 			return "", err
 		}
 		return snapEntity(store, e), nil
+	case StReviews:
+		e, found, err := s.Reviews.FindById(tx, id)
+		if err != nil || !found {
+			return "", err
+		}
+		return snapEntity(store, e), nil
+	case StFolders:
+		e, found, err := s.Folders.FindById(tx, id)
+		if err != nil || !found {
+			return "", err
+		}
+		return snapEntity(store, e), nil
 	case StMemos:
 		e, found, err := s.Memos.FindById(tx, id)
 		if err != nil || !found {
@@ -322,6 +352,10 @@ func storeOfEntity(e boltz.Entity) string {
 		return StNotes
 	case *Ticket:
 		return StTickets
+	case *Review:
+		return StReviews
+	case *Folder:
+		return StFolders
 	case *Group:
 		return StGroups
 	case *Memo:
